@@ -138,6 +138,13 @@ func oracle(c Case) *ev.Verdict {
 		if first == '/' || first == '#' || first == ' ' || first == '\t' || first == '\r' || first == '\n' {
 			return nil
 		}
+		if strings.TrimLeft(S[L:], " \t\r\n") != "" {
+			// "S is complete": when the text goes on beyond its own boundary on the same line (the scanner
+			// tolerates an unfinished `/` or `@` at the very end of the input: `0/`), what follows S is not
+			// "other text on a new line" but the continuation of that line
+			ev.Excluded("len", "trailer clause: S has non-blank text beyond its own boundary (unfinished comment opener at end of input)")
+			return nil
+		}
 		tp := c.Project
 		tp.Root = S + c.NL + c.Trailer
 		n, e, esc := lenOf(tp)
